@@ -309,7 +309,7 @@ fn setup<C: MlsConfig>(
     let mut clients = vec![];
     for i in 0..n {
         let s = Setup::new(&((b'A' + i as u8) as char).to_string());
-        let h = handles(&s, log, "/tmp/vharness-scratch-c11");
+        let h = handles(&s, log, &crate::util::scratch("c11"));
         h.psk.inner.lock().unwrap().insert(ext_psk_id(C11_PSK), psk_value(b"c11 psk value 0123456789abcdef!!"));
         let (id, sk) = make_identity(&s.name, s.suite);
         clients.push(mk(&s, &h, id, sk));
@@ -419,8 +419,8 @@ pub fn run(o: &Opts) -> i32 {
     println!("traffic_checks {}", cx.traffic_checks);
     println!("cover {}", cx.results.iter().map(|(k, v)| format!("{k}={v}")).collect::<Vec<_>>().join(","));
     println!("oracle_failures {}", cx.fails.len());
-    std::fs::write(format!("{dir}/c11.failures"), cx.fails.iter().take(200).cloned().collect::<Vec<_>>().join("\n")).unwrap();
+    std::fs::write(format!("{dir}/c11.failures"), cx.fails.iter().cloned().collect::<Vec<_>>().join("\n")).unwrap();
     std::fs::write(format!("{dir}/c11.samples"), "").unwrap();
-    let _ = std::fs::remove_dir_all("/tmp/vharness-scratch-c11");
+    let _ = std::fs::remove_dir_all(&crate::util::scratch("c11"));
     0
 }
